@@ -722,3 +722,137 @@ def validate_invariants(rep, mod, rule):
               'Invalid is appended when a list is given, else re-raised; after the '
               'walk raises Invalid(errors) iff any' if not probs else
               {'problems': sorted(set(probs))[:4]}, construct='collect-all', node=f)
+
+
+# ---------------------------------------------------------------------------
+# C17 verify._verify
+
+def _size_truth(c, L, n):
+    """truth of the canonical fact text c about list L when len(L) == n, or
+    None when c is not a fact about the size of L"""
+    ln = 'len(%s)' % L
+    if c == L or c == ln:
+        return n > 0
+    for k in (0, 1, 2):
+        if c in ('%s == %d' % (ln, k), '%d == %s' % (k, ln)):
+            return n == k
+        if c == '%d < %s' % (k, ln):
+            return k < n
+        if c == '%s < %d' % (ln, k):
+            return n < k
+    return None
+
+
+def verify_collects(rep, vmod, rule, rule_sel):
+    f = find_def(vmod, '_verify')
+    site = 'verify._verify'
+    hnames = {h.name for h in walk_local(f) if isinstance(h, ast.ExceptHandler) and h.name}
+    VIEW = ('iface.namesAndDescriptions(all=True)', 'iface.namesAndDescriptions(True)')
+    p_sel, p_decl, p_loop, p_rep = [], [], [], []
+    outcomes = set()
+    n_paths = 0
+    for ps in all_paths(f):
+        if ps.kind == 'raise' and ps.ret_node is None:
+            continue
+        n_paths += 1
+        c = ps.fact("vtype == 'c'")
+        if c is None:
+            p_sel.append('a path does not select the tester by vtype')
+            continue
+        T = 'iface.implementedBy' if c else 'iface.providedBy'
+        other = 'iface.providedBy' if c else 'iface.implementedBy'
+        if any(e.kind == 'call' and nt(e.r.func) == other for e in ps.events):
+            p_sel.append("vtype %s 'c' asks %s" % ('==' if c else '!=', other))
+        apps = [e for e in ps.events if e.kind == 'call' and
+                isinstance(e.r.func, ast.Attribute) and e.r.func.attr == 'append'
+                and len(e.r.args) == 1]
+        dni = [e for e in apps if nt(e.r.args[0]) == 'DoesNotImplement(iface, candidate)']
+        tent = ps.fact('tentative')
+        told = ps.fact('%s(candidate)' % T)
+        if tent is None:
+            p_decl.append('tentative is not consulted')
+        elif tent:
+            if dni:
+                p_decl.append('DoesNotImplement recorded although tentative')
+        else:
+            if told is None:
+                p_decl.append('not tentative, but %s(candidate) is not asked' % T)
+            elif bool(dni) != (told is False):
+                p_decl.append('DoesNotImplement recorded: %s although the candidate '
+                              '%s' % (bool(dni), 'declares' if told else 'does not declare'))
+        L = {nt(e.r.func.value) for e in apps}
+        # element loop
+        its = iterated(ps)
+        for i in its:
+            if i not in VIEW:
+                p_loop.append('iterates `%s`' % i[:60])
+                continue
+            each = 'EACH(%s)' % i
+            call = '_verify_element(iface, %s[0], %s[1], candidate, vtype)' % (each, each)
+            if len([e for e in ps.events if e.kind == 'call' and nt(e.r) == call]) != 1:
+                p_loop.append('an element of the view is not verified')
+            if each_conditions(ps, i):
+                p_loop.append('elements filtered by %s' % each_conditions(ps, i)[:1])
+        excs = [cc for cc, t, p in ps.order if cc.startswith('EXCEPT(')]
+        if excs:
+            if excs != ['EXCEPT(Invalid)']:
+                p_loop.append('handles %s' % excs)
+            caught = [e for e in apps if nt(e.r.args[0]) in hnames]
+            if len(caught) != 1:
+                p_loop.append('a caught Invalid is not appended')
+            if ps.kind == 'raise' and ps.raised is None:
+                p_loop.append('a caught Invalid is re-raised (first error only)')
+                continue
+        # report
+        if len(L) > 1:
+            p_rep.append('errors go to different lists %s' % sorted(L))
+            continue
+        Ls = sorted(L)[0] if L else None
+        if Ls is None:
+            # no append on this path: find the list from the facts
+            cands = {cc for cc, t, p in ps.order if cc in ('[]', 'list()')}
+            Ls = sorted(cands)[0] if cands else '[]'
+        consistent = []
+        for n in (0, 1, 2):
+            okn = True
+            for cc, t, p in ps.order:
+                v = _size_truth(cc, Ls, n)
+                if v is not None and v != t:
+                    okn = False
+            if okn:
+                consistent.append(n)
+        if ps.kind == 'return':
+            out = 0 if nt(ps.ret) == 'True' else 'return %s' % nt(ps.ret)
+        elif ps.kind == 'raise':
+            r = nt(ps.raised)
+            out = 1 if r == '%s[0]' % Ls else (
+                2 if r == 'MultipleInvalid(iface, candidate, %s)' % Ls else 'raise ' + r)
+        else:
+            out = 'falls off the end'
+        outcomes.add(out)
+        if consistent != [out]:
+            p_rep.append('with %s error(s): %s' % (
+                '/'.join(map(str, consistent)) or 'an impossible number of',
+                {0: 'returns True', 1: 'raises the single error',
+                 2: 'raises MultipleInvalid'}.get(out, out)))
+    for lp in walk_local(f):
+        if isinstance(lp, ast.For) and nt(lp.iter) in VIEW:
+            if [n for n in walk_local(lp) if isinstance(n, (ast.Break, ast.Return))]:
+                p_loop.append('the element loop can be left before exhaustion')
+    if not {0, 1, 2} <= outcomes:
+        p_rep.append('outcomes seen: %s' % sorted(map(str, outcomes)))
+    rep.check(rule_sel, site, not p_sel and n_paths > 0,
+              "vtype 'c' -> iface.implementedBy, otherwise iface.providedBy"
+              if not p_sel else {'problems': sorted(set(p_sel))}, construct='tester', node=f)
+    rep.check(rule, site, not p_decl,
+              'DoesNotImplement appended iff not tentative and not tester(candidate)'
+              if not p_decl else {'problems': sorted(set(p_decl))}, construct='declares',
+              node=f)
+    rep.check(rule, site, not p_loop,
+              'every element of the inherited view is verified; every Invalid is '
+              'caught and appended; the loop ends only by exhaustion' if not p_loop
+              else {'problems': sorted(set(p_loop))[:3]}, construct='collect', node=f)
+    rep.check(rule, site, not p_rep,
+              'no error -> True; exactly one -> that error; several -> '
+              'MultipleInvalid(iface, candidate, excs)' if not p_rep else
+              {'problems': sorted(set(p_rep))[:4]}, construct='report', node=f)
